@@ -12,6 +12,7 @@ from __future__ import annotations
 
 import itertools
 import math
+import multiprocessing as mp
 import os
 import random
 from concurrent.futures import ThreadPoolExecutor
@@ -435,7 +436,17 @@ def _replay_log(item):
         seen = set()
         devs = pos["devs"]
         call, desc = {}, []
+        orig = None
         for n, (label, state) in enumerate(steps):
+            if label["act"] == "Copy":                          # the history goes on with the copy
+                orig, hole = hole, hole.copy(name="copy")
+                diff = _compare(hole, state, postab, f"{mode} table {tab + 1} step {n + 1}: copy()") or \
+                    _compare(orig, state["frozen"], postab, f"{mode} table {tab + 1} step {n + 1}: original after copy()")
+                if diff is not None:
+                    viol.append(_viol("log-copy:" + diff[0], diff[1], rcase))
+                    mismatch = True
+                    break
+                continue
             args = label["args"]
             kind = args["kind"]
             attrs = {"values": np.array([_value(t, kind) for t in args["toks"]])}
@@ -445,14 +456,20 @@ def _replay_log(item):
                 attrs["from-to"] = np.array(args["at"]) / 1000.0
             if kind == "text":
                 attrs["type"] = "TEXT"
+            own = args.get("own", False)
+            if own and not (args["tol"] == 10 and (seed + n) % 2):  # 0.01 is the hole's default: key or nothing
+                attrs["collocation_distance"] = args["tol"] / 1000.0
             call[f"d{args['name']}"] = attrs                    # the sets of one call, in order
-            desc.append(f"{label['act']}({kind}, {args['at']})")
+            desc.append(f"{label['act']}({kind}, {args['at']}" + (f", own tol {args['tol'] / 1000})" if own else ")"))
             if args.get("more"):
                 continue                                        # the object is observable between calls only
-            where = (f"{mode} table {tab + 1} set {n + 1}: add_data({{{'; '.join(desc)}}}, "
-                     f"collocation_distance={args['tol'] / 1000})")
+            kwargs = {} if own else {"collocation_distance": args["tol"] / 1000.0}
+            if args.get("pg"):
+                kwargs["property_group"] = f"pg{args['pg']}"
+            where = (f"{mode} table {tab + 1} set {n + 1}{' (on the copy)' if orig is not None else ''}: "
+                     f"add_data({{{'; '.join(desc)}}}, {kwargs})")
             try:
-                hole.add_data(call, collocation_distance=args["tol"] / 1000.0)
+                hole.add_data(call, **kwargs)
                 outcome = "ok"
             except Exception as exc:  # pylint: disable=broad-except
                 outcome = f"refused:{type(exc).__name__}: {exc}"
@@ -463,11 +480,16 @@ def _replay_log(item):
                 mismatch = True
                 break
             diff = _compare(hole, state, postab, where + " live")
+            if diff is None and orig is not None:
+                diff = _compare(orig, state["frozen"], postab, where + " live, the ORIGINAL of the copy")
             if diff is None and path is not None:
                 ws.close()
                 ws = Workspace(path, mode="r+")
-                hole = ws.get_entity("hole")[0]
+                hole = ws.get_entity("copy" if orig is not None else "hole")[0]
                 diff = _compare(hole, state, postab, where + " re-opened")
+                if diff is None and orig is not None:
+                    orig = ws.get_entity("hole")[0]
+                    diff = _compare(orig, state["frozen"], postab, where + " re-opened, the ORIGINAL of the copy")
             done += 1
             if diff is not None:
                 viol.append(_viol(diff[0], diff[1], rcase))
@@ -509,7 +531,7 @@ def _log_graph(cfg, devs, seed, max_len=8):
 
 def _steps(g, p):
     steps = [(g.edges[i][2], g.states[g.edges[i][1]]) for i in p]
-    while steps and steps[-1][0]["args"].get("more"):           # never leave a call open
+    while steps and steps[-1][0]["act"] != "Copy" and steps[-1][0]["args"].get("more"):   # never leave a call open
         steps.pop()
     return steps
 
@@ -520,19 +542,31 @@ def _items(pos, g, paths, seed, modes):
 
 
 def _shapes(g, p):
-    """shape classes of a history that the quick sample must contain (they need three sets)"""
+    """shape classes of a history that the quick sample must contain"""
     lbl = [g.edges[i][2] for i in p]
     out = set()
-    if [(x["act"], x["args"]["more"]) for x in lbl] == [("AddDepth", False), ("AddInterval", False), ("AddDepth", False)]:
+    if len(lbl) == 3 and [(x["act"], x["args"] and x["args"]["more"]) for x in lbl] == \
+            [("AddDepth", False), ("AddInterval", False), ("AddDepth", False)]:
         out.add("depth-interval-depth-calls")
     for n, i in enumerate(p):
         src, x = g.states[g.edges[i][0]], lbl[n]
+        if x["act"] == "Copy":
+            if any(y["act"] == "AddDepth" for y in lbl[:n]) and any(y["act"] == "AddDepth" for y in lbl[n + 1:]):
+                out.add("depth-data-added-to-a-copy")
+            continue
+        a = x["args"]
+        dst = g.states[g.edges[i][1]]
+        if a.get("pg") and not a["more"] and dst["hasDepth"] and \
+                (dst["verts"][:len(src["verts"])] != src["verts"] or (x["act"] == "AddDepth" and a["at"] != sorted(a["at"]))):
+            out.add("property-group-call-with-re-sort")
+        if a.get("own") and src["inCall"] and a["tol"] != lbl[n - 1]["args"]["tol"]:
+            out.add("own-tolerances-differ-in-one-call")
         if x["act"] != "AddDepth" or not src["inCall"]:
             continue
         if lbl[n - 1]["act"] == "AddInterval" and src["hasDepth"]:
             out.add("interval-then-depth-in-one-call")
         known = [d if d >= 0 else 10 ** 7 for d in src["depth"]] if src["hasDepth"] else []
-        if known != sorted(known) and {a[0] for a in x["args"]["at"]} & set(known):
+        if known != sorted(known) and {t[0] for t in a["at"]} & set(known):
             out.add("multi-set-call-reusing-depth-while-unsorted")
     return out
 
@@ -595,15 +629,20 @@ def _probe(seed):
 
 LOG_CFG = {
     # cfg, number of paths replayed (None = all)
-    "quick": [("DrillholeLogQuick.cfg", 1000), ("DrillholeLogMulti.cfg", 1500)],
-    "thorough": [("DrillholeLogQuick.cfg", None), ("DrillholeLogMulti.cfg", None), ("DrillholeLogDeep.cfg", 6000),
+    "quick": [("DrillholeLogQuick.cfg", 800), ("DrillholeLogMulti.cfg", 1300), ("DrillholeLogOpts.cfg", 600),
+              ("DrillholeLogCopy.cfg", None)],
+    "thorough": [("DrillholeLogQuick.cfg", None), ("DrillholeLogMulti.cfg", None), ("DrillholeLogOpts.cfg", None),
+                 ("DrillholeLogCopy.cfg", None), ("DrillholeLogDeep.cfg", 6000),
                  ("DrillholeLogDeepText.cfg", 6000), ("DrillholeLogMultiText.cfg", 6000)],
 }
-LOG_INV = {"quick": ["DrillholeLogQuickInv.cfg", "DrillholeLogMultiInv.cfg"],
-           "thorough": ["DrillholeLogQuickInv.cfg", "DrillholeLogMultiInv.cfg", "DrillholeLogDeepInv.cfg",
+LOG_INV = {"quick": ["DrillholeLogQuickInv.cfg", "DrillholeLogMultiInv.cfg", "DrillholeLogOptsInv.cfg",
+                     "DrillholeLogCopyInv.cfg"],
+           "thorough": ["DrillholeLogQuickInv.cfg", "DrillholeLogMultiInv.cfg", "DrillholeLogOptsInv.cfg",
+                        "DrillholeLogCopyInv.cfg", "DrillholeLogDeepInv.cfg",
                         "DrillholeLogDeepTextInv.cfg", "DrillholeLogMultiTextInv.cfg"]}
 MODES = ["live", "reopen1", "live", "reopen1", "live", "reopen2"]
-SHAPES = ("depth-interval-depth-calls", "interval-then-depth-in-one-call", "multi-set-call-reusing-depth-while-unsorted")
+SHAPES = ("depth-interval-depth-calls", "interval-then-depth-in-one-call", "multi-set-call-reusing-depth-while-unsorted",
+          "own-tolerances-differ-in-one-call", "property-group-call-with-re-sort", "depth-data-added-to-a-copy")
 
 
 def _run_log(tier, seed):
@@ -634,6 +673,8 @@ def _run_log(tier, seed):
         # re-sorts that renumber existing cells
         merged = unsorted = renumbered = 0
         for src, dst, lbl in g.edges:
+            if lbl["act"] == "Copy":
+                continue
             a, b = g.states[src], g.states[dst]
             at = lbl["args"]["at"]
             if lbl["act"] == "AddDepth":
@@ -642,7 +683,7 @@ def _run_log(tier, seed):
                 merged += len(b["cells"]) - len(a["cells"]) < len(at)
             unsorted += at != sorted(at)
             renumbered += bool(a["cells"]) and b["cells"][:len(a["cells"])] != a["cells"]
-        if not (merged and renumbered and (unsorted or "DeepText" in cfg)):     # DeepText: one depth per call
+        if not (merged and (renumbered or "Opts" in cfg) and (unsorted or "DeepText" in cfg)):   # DeepText: one depth per set
             raise MachineryError(f"DrillholeLog/{cfg}: vacuous graph (merges {merged}, unsorted arguments {unsorted}, "
                                  f"cell renumberings {renumbered})")
         cov["per_config"][cfg] = {"states": res.distinct, "transitions": len(g.edges), "paths": len(paths),
@@ -658,12 +699,6 @@ def _run_log(tier, seed):
         if not shapes_replayed.get(sh):
             raise MachineryError(f"no history of shape {sh} was replayed on a live object")
     cov["shapes_replayed_on_live_object"] = shapes_replayed
-    # design level: the ideal specification satisfies the property on the same bounds
-    for cfg in LOG_INV[tier]:
-        res = run_tlc(AREA, "DrillholeLog", cfg, workers=TLC_WORKERS, heap=HEAP, keep_lines=False)
-        if not res.ok:
-            raise MachineryError(f"DrillholeLog/{cfg}: the ideal specification violates {res.violated}")
-        cov["per_config"][cfg] = {"states": res.distinct, "invariants": "hold", "tlc_wall_s": round(res.wall_s, 1)}
     return viol, cov, states, trans, replayed, steps, sample, exhaustive
 
 
@@ -671,6 +706,39 @@ def _run_log(tier, seed):
 DES_CFG = {"quick": [("DesurveyQuick.cfg", None, 150)],
            "thorough": [("DesurveyQuick.cfg", None, 300), ("DesurveyThorough2.cfg", None, 600),
                         ("DesurveyThorough3.cfg", None, 1200)]}
+
+
+CONTROLS = [("Desurvey", "Desurvey_ZeroLegKeepsInDir.cfg", "BeyondFollowsLastLeg"),
+            ("Desurvey", "Desurvey_StationsFromInDir_LimitsAgree.cfg", "LimitsAgree"),
+            ("Desurvey", "Desurvey_StationsFromInDir_StepBounded.cfg", "StepBounded"),
+            ("DesurveyCache", "DesurveyCache_SurveysKeepCache.cfg", "ReadIsCurrent"),
+            ("DesurveyCache", "DesurveyCache_CollarKeepsCache.cfg", "ReadIsCurrent"),
+            ("DrillholeLog", "DrillholeLog_SortSkipsText.cfg", "ValuesAttached"),
+            ("DrillholeLog", "DrillholeLog_TextMatchTruncated.cfg", "ValuesAttached"),
+            ("DrillholeLog", "DrillholeLog_MidCallDepthShort.cfg", "VertexAtDepth"),
+            ("DrillholeLog", "DrillholeLog_SortKeepsCells.cfg", "CellsJoin"),
+            ("DrillholeLog", "DrillholeLog_SortKeepsVertices.cfg", "VertexAtDepth")]
+
+
+def _design_level(tier, conn):
+    """Runs in a process of its own, beside the exports and replays: (a) the ideal DrillholeLog specification
+    satisfies ArraysAligned, VertexAtDepth, CellsJoin, ValuesAttached, OriginalKept on the bounds of every exported
+    graph; (b) negative controls: each named deviation violates the invariant that states its clause."""
+    def one(job):
+        try:
+            if job[0] == "inv":
+                res = run_tlc(AREA, "DrillholeLog", job[1], workers=2, heap=HEAP, keep_lines=False)
+                return {"cfg": job[1], "error": None if res.ok else f"the ideal specification violates {res.violated}",
+                        "states": res.distinct, "wall": round(res.wall_s, 1)}
+            res = run_tlc(AREA, job[1], job[2], workers=2, heap=HEAP, keep_lines=False)
+            return {"cfg": job[2], "error": None if job[3] in res.violated else
+                    f"negative control: expected {job[3]} to be violated, got {res.violated}"}
+        except Exception as exc:  # pylint: disable=broad-except
+            return {"cfg": job[-2] if job[0] != "inv" else job[1], "error": f"{type(exc).__name__}: {exc}"[:1500]}
+    jobs = [("inv", cfg) for cfg in LOG_INV[tier]] + [("nc",) + c for c in CONTROLS]
+    with ThreadPoolExecutor(max_workers=3) as pool:
+        conn.send(list(pool.map(one, jobs)))
+    conn.close()
 
 
 def _split(out):
@@ -688,6 +756,11 @@ def run(tier, seed):
     states = trans = replayed = 0
     per_cfg = {}
     samples = []
+    ctx = mp.get_context("fork")
+    recv, send = ctx.Pipe(duplex=False)
+    design = ctx.Process(target=_design_level, args=(tier, send), daemon=True)   # forked before any thread exists
+    design.start()
+    send.close()
     # 1. desurvey over all tables
     n_cases = n_degenerate = 0
     for cfg, limit, n_file in DES_CFG[tier]:
@@ -727,19 +800,18 @@ def run(tier, seed):
     replayed += lreplayed
     per_cfg.update(lcov.pop("per_config"))
     samples.append(lsample)
-    # 4. negative controls: each named deviation must violate the invariant that states its clause
-    controls = [("Desurvey", "Desurvey_ZeroLegKeepsInDir.cfg", "BeyondFollowsLastLeg"),
-                ("Desurvey", "Desurvey_StationsFromInDir_LimitsAgree.cfg", "LimitsAgree"),
-                ("Desurvey", "Desurvey_StationsFromInDir_StepBounded.cfg", "StepBounded"),
-                ("DesurveyCache", "DesurveyCache_SurveysKeepCache.cfg", "ReadIsCurrent"),
-                ("DesurveyCache", "DesurveyCache_CollarKeepsCache.cfg", "ReadIsCurrent"),
-                ("DrillholeLog", "DrillholeLog_SortSkipsText.cfg", "ValuesAttached"),
-                ("DrillholeLog", "DrillholeLog_TextMatchTruncated.cfg", "ValuesAttached"),
-                ("DrillholeLog", "DrillholeLog_MidCallDepthShort.cfg", "VertexAtDepth"),
-                ("DrillholeLog", "DrillholeLog_SortKeepsCells.cfg", "CellsJoin"),
-                ("DrillholeLog", "DrillholeLog_SortKeepsVertices.cfg", "VertexAtDepth")]
-    with ThreadPoolExecutor(max_workers=3) as pool:
-        list(pool.map(lambda c: funcheck.expect_violation(AREA, *c), controls))
+    # 4. design-level results (ideal specification on the exported bounds, negative controls)
+    try:
+        results = recv.recv()
+    except EOFError as exc:
+        raise MachineryError("the design-level TLC runs died") from exc
+    design.join()
+    for r in results:
+        if r["error"]:
+            raise MachineryError(f"{r['cfg']}: {r['error']}")
+        if "states" in r:
+            per_cfg[r["cfg"]] = {"states": r["states"], "invariants": "hold", "tlc_wall_s": r["wall"]}
+    controls = CONTROLS
     if replayed < 500:
         raise MachineryError("too few cases replayed")
     return {
